@@ -340,11 +340,14 @@ class RealAsyncSched:
     def run_coro_inline(self, coro: Any) -> Any:
         raise RuntimeError("sync code calling an async callable inside an asyncio task")
 
-    async def _main(self) -> None:
+    async def _main(self, main_sync: bool = False) -> None:
         rt = self.rt
         self.loop = asyncio.get_running_loop()
-        self.spawn(1, copy_ctx=False)
         step = 0
+        if not main_sync:
+            self.spawn(1, copy_ctx=False)
+        else:
+            step = 1
         while True:
             ready = sorted(t for t, s in self.state.items() if s in ("new", "susp", "susp!"))
             if not ready:
@@ -370,8 +373,31 @@ class RealAsyncSched:
                 task.cancel()
         await asyncio.sleep(0)
 
+    def _run_main_sync(self) -> None:
+        """prog["main_sync"]: task 1 is not an asyncio task but the synchronous main program of the thread: it runs
+        contracted code and creates the tasks before the event loop is started, so the tasks inherit (a copy of) the
+        context in which synchronous contracted code has already run."""
+        rt = self.rt
+        self.loop = asyncio.new_event_loop()
+        try:
+            if self.choose([1], 0) != 1:
+                return
+            rt.tls.t = 1
+            self.state[1] = "running"
+            try:
+                rt.run_script(list(rt.prog["drv"][0]), "drv")
+                rt.emit("end", 1, 0, 0, 0, "ret")
+            finally:
+                self.state[1] = "done"
+            self.loop.run_until_complete(self._main(main_sync=True))
+        finally:
+            self.loop.close()
+
     def run(self) -> None:
         try:
-            asyncio.run(self._main())
+            if self.rt.prog.get("main_sync"):
+                contextvars.Context().run(self._run_main_sync)
+            else:
+                asyncio.run(self._main())
         except HarnessAbort:
             pass
